@@ -30,6 +30,9 @@ def run(ck):
     # L1: the complete-greedy machine conserves items at every step and never ends without a partition
     models.cg_mc(ck, 4 if q else 5, 3, 3, models.SW_SOME if q else models.SW_ALL, False, ["ResultValid", "ResultNotNone", "Conservation", "BestConsistent"])
     models.ckk_mc(ck, 4 if q else 5, 3, 3, ["Conservation", "ResultValid", "ResultNotNone"])
+    # "a call that runs to completion": under weak fairness of the loop actions the uninterrupted search terminates (liveness, small scope)
+    ck.mc("CompleteGreedy", "CONSTANTS MaxN = %d MinV = 0 MaxV = 2 MaxK = 3 Objs = {\"diff\", \"maxsum\", \"minsum\"} AllowInterrupt = FALSE\nSwitches = {0, 13, 15, 2}\n"
+          "SPECIFICATION Spec\nPROPERTY Terminates\n" % (3 if q else 4), "MC CompleteGreedy liveness: <>(pc = done) under weak fairness", workers=4)
     P = scope.p_scope(ck, 5, 5, 4) if q else scope.p_scope(ck, 6, 6, 6)
     ck.exhaustive = True
     groups = []
